@@ -33,27 +33,8 @@ def native_replay(h, hr, target_dir, package):
 
 
 def playback_incrate(test_src):
-    """Append the generated test to a scratch copy of the harness dir and run cargo kani playback
-    in /repo/crates/parol_runtime with the harness path redirected through a symlink swap is not
-    possible (#[path] is literal) - instead the test is written to /verif/kani/parol_runtime/
-    playback_gen.rs (git-ignored, included only when present) and removed afterwards."""
-    gen = os.path.join(VERIF, "kani", "parol_runtime", "playback_gen.rs")
-    body = test_src.replace("kani::concrete_playback_run(concrete_vals, ", "kani::concrete_playback_run(concrete_vals, super::c31_recovery::")
-    placeholder = open(gen).read()
-    try:
-        open(gen, "w").write("//! generated; restored after replay\n" + body + "\n")
-        import re
-        tname = re.search(r"fn (kani_concrete_playback_\w+)", test_src).group(1)
-        from lib.common import sh
-        rc, out = sh(["cargo", "kani", "playback", "-Z", "concrete-playback", "--", tname], cwd=CRATE,
-                     env={"CARGO_TARGET_DIR": os.path.join(BUILD, "playback-target-rt")}, timeout=1800)
-    finally:
-        open(gen, "w").write(placeholder)
-    if "test result: FAILED" in out or "panicked at" in out:
-        return True, out
-    if "test result: ok" in out:
-        return False, out
-    return None, out
+    from lib.incrate import playback_incrate as pb
+    return pb(CRATE, "parol_runtime", "super::c31_recovery", test_src, "rt")
 
 
 def main():
